@@ -348,6 +348,7 @@ def run_c02(chk, F):
                     L.arch, k[0], k[1], "/".join(sorted(lost))))
     rule_r9_arm64(chk, F, A)
     rule_div_width(chk, F, A)
+    rule_compare_width(chk, F, A)
 
 
 # --------------------------------------------------------------------------- instruction facts derived from dora_asm
@@ -1656,3 +1657,225 @@ def run_c14(chk, F):
         cx_ = sum(1 for B in LX.bodies[k] for x in B.calls if layer_key(x.name or "") in LX.sinks())
         if ca_ or cx_:
             r.instance("masm::%s:bailout-sites" % k[1], sample={"method": k[1], "x64": cx_, "arm64": ca_})
+
+
+# --------------------------------------------------------------------------- C02.R15: compare-width parity
+MM = "dora_compiler::layout::MachineMode"
+
+
+def _mode_bool_table(S, name):
+    """MachineMode::<name>() → {variant: bool}, read off a `match self { … => true/false }` body (is64, is_float…)"""
+    b = S.crate("dora_compiler").hir.get(MM + "::" + name)
+    out = {}
+    if b:
+        for n in hirq.walk(b["body"]):
+            if n[0] == "match":
+                for (pat, g, arm) in hirq.match_arms(n):
+                    a = hirq.strip(arm)
+                    if hirq.is_node(a) and a[0] == "lit" and a[1] == "bool":
+                        for d in hirq.pat_paths(pat):
+                            if "MachineMode::" in d:
+                                out[last(d)] = a[2]
+    return out
+
+
+class CompareWidths:
+    """per masm method of one build: MachineMode (or '*' when the method has no mode parameter) → set of effective
+    widths of its compare/test instructions, through helper methods (cmp_reg(mode, ..), cmp_mem(MachineMode::X, ..)).
+    Effective width = min(instruction width, width of the value: the mode of the enclosing dispatch arm, or the width
+    of the load that produced the compared register) — a compare at least as wide as a zero-extended value compares
+    the whole value (A64 has no sub-word compare; x64 compares bytes with cmpb)."""
+
+    def __init__(self, L, S, prefix, insn_width, load_bits):
+        self.L, self.S, self.prefix = L, S, prefix
+        self.insn_width, self.load_bits = insn_width, load_bits
+        self.hir = L.crate.hir
+        adt = S.crate("dora_compiler").adt("layout::MachineMode")
+        self.modes = [v["name"] for v in adt["variants"]] if adt else []
+        self.bits = mode_bits(S)
+        self.tables = {}
+        self.memo, self.own, self.callees = {}, {}, {}
+
+    def mode_param(self, k):
+        b = self.hir.get(self.L.paths.get(k, ""))
+        if not b:
+            return None
+        ps = [p[0][1] for p in b["params"] if p[1] == MM and hirq.is_node(p[0]) and p[0][0] == "pbind"]
+        return ps[0] if len(ps) == 1 else None
+
+    def summary(self, k, stack=()):
+        if k in self.memo:
+            return self.memo[k]
+        if k in stack:
+            return {}
+        b = self.hir.get(self.L.paths.get(k, ""))
+        out, own, callees = {}, {}, set()
+        if b is None:
+            self.memo[k] = out
+            return out
+        mp = self.mode_param(k)
+        loaded = {}          # rendered register operand → bits of the load that produced it
+
+        def add(d, modes, ws):
+            for m in (modes if modes is not None else ["*"]):
+                for w in ws:
+                    vb = self.bits.get(m) if m != "*" else None
+                    d.setdefault(m, set()).add(min(w, vb) if vb else w)
+
+        def ev(n, modes):
+            if not isinstance(n, list):
+                return
+            if not hirq.is_node(n):
+                for c in n:
+                    ev(c, modes)
+                return
+            tag = n[0]
+            if tag == "match" and mp and hirq.local_name(n[1]) == mp:
+                rest = set(modes)
+                for (pat, g, arm) in hirq.match_arms(n):
+                    ms = {last(d) for d in hirq.pat_paths(pat) if "MachineMode::" in d}
+                    if not ms and hirq.pat_is_wild(pat):
+                        ms = set(rest)
+                    ms &= set(modes)
+                    rest -= ms
+                    if not hirq.is_panic_body(arm):
+                        ev(arm, frozenset(ms))
+                return
+            if tag == "if" and mp:
+                c, neg = hirq.strip(n[1]), False
+                if hirq.is_node(c) and c[0] == "un" and c[1] == "Not":
+                    c, neg = hirq.strip(c[2]), True
+                if hirq.is_node(c) and c[0] == "mcall" and hirq.local_name(c[4]) == mp and (c[2] or "").startswith(MM + "::"):
+                    if c[3] not in self.tables:
+                        self.tables[c[3]] = _mode_bool_table(self.S, c[3])
+                    t = self.tables[c[3]]
+                    if t:
+                        ev(n[2], frozenset(m for m in modes if t.get(m) is (not neg)))
+                        if n[3] is not None:
+                            ev(n[3], frozenset(m for m in modes if t.get(m) is neg))
+                        return
+            if tag in ("mcall", "call"):
+                cs = hirq.CallSite(n)
+                cal = cs.callee or ""
+                if cal.startswith(self.prefix):
+                    lb = self.load_bits(cs.name)
+                    if lb is not None and cs.args:
+                        loaded[hirq.render(cs.args[0])] = lb
+                    w = self.insn_width(cs.name)
+                    if w is not None:
+                        for a in cs.args:
+                            lw = loaded.get(hirq.render(a))
+                            if lw:
+                                w = min(w, lw)
+                        add(out, modes, {w})
+                        add(own, modes, {w})
+                ck = layer_key(cal)
+                if ck and ck[0] == "masm" and ck != k and ck in self.L.paths:
+                    callees.add(ck)
+                    sub = self.summary(ck, stack + (k,))
+                    it = self.L.items.get(self.L.paths[ck]) or {}
+                    args = cs.all_args() if cs.is_method else list(cs.args)
+                    idx = it.get("inputs", []).index(MM) if MM in it.get("inputs", []) else None
+                    a = hirq.strip(args[idx]) if idx is not None and idx < len(args) else None
+                    d = hirq.def_path(a) if a is not None else None
+                    const_mode = last(d) if d and "MachineMode::" in d else None
+                    if ck[1] == "load_mem" and const_mode and idx is not None and idx + 1 < len(args):
+                        loaded[hirq.render(args[idx + 1])] = self.bits.get(const_mode, 64)
+                    if self.mode_param(ck) is None:
+                        ws = sub.get("*", set())
+                        for m in (modes if modes is not None else ["*"]):
+                            out.setdefault(m, set()).update(ws)
+                    elif mp and a is not None and hirq.local_name(a) == mp:
+                        for m in modes:
+                            out.setdefault(m, set()).update(sub.get(m, set()))
+                    elif const_mode:
+                        for m in (modes if modes is not None else ["*"]):
+                            out.setdefault(m, set()).update(sub.get(const_mode, set()))
+                    else:
+                        u = set().union(*sub.values()) if sub else set()
+                        for m in (modes if modes is not None else ["*"]):
+                            out.setdefault(m, set()).update(u)
+            for c in n[1:]:
+                ev(c, modes)
+
+        ev(b["body"], frozenset(self.modes) if mp else None)
+        out = {m: w for m, w in out.items() if w}
+        self.memo[k] = out
+        self.own[k] = {m: w for m, w in own.items() if w}
+        self.callees[k] = callees
+        return out
+
+
+def _x64_cmp_width(n):
+    # x64 operand-size letter of cmp/test (b, w, l, q); cmpxchg is not a compare of program values
+    m = re.match(r"^(cmp|test)([bwlq])$", mnemonic(n))
+    return {"b": 8, "w": 16, "l": 32, "q": 64}[m.group(2)] if m else None
+
+
+def rule_compare_width(chk, F, A):
+    r = chk.rule("C02.R15", "every MacroAssembler method present in both builds compares values of the same width on "
+                            "x64 and arm64: per machine mode where the method dispatches on (or passes on) its mode "
+                            "parameter, otherwise as a whole — effective width = min(compare instruction width, width "
+                            "of the compared value), through the compare helpers")
+    LX, LA = layers(F, A)
+    insns = A64Insns(A)
+
+    def a64_w(n):
+        mn = mnemonic(n)
+        if mn in ("cmp", "cmn", "tst", "cbz", "cbnz"):
+            return insns.width(n)
+        if mn in ("tbz", "tbnz"):
+            return 64           # a single-bit test of an X register
+        return None
+
+    def a64_load(n):
+        m = insns.mem(n)
+        return m["bits"] if m and m["kind"] in ("plain-load", "ldar", "ldx") else None
+
+    WX = CompareWidths(LX, F, X64, _x64_cmp_width, lambda n: None)
+    WA = CompareWidths(LA, A, A64, a64_w, a64_load)
+    r.floor("MachineMode sizes", len(WA.bits), 5)
+    both = sorted(k for k in set(LX.paths) & set(LA.paths) if k[0] == "masm")
+    results = {}
+    for k in both:
+        sx, sa = WX.summary(k), WA.summary(k)
+        if not sx and not sa:
+            continue
+        if sx and sa and ("*" in sx) != ("*" in sa):
+            cmpd = {"*": (set().union(*sx.values()), set().union(*sa.values()))}
+        else:
+            cmpd = {m: (sx[m], sa[m]) for m in sx if m in sa}
+        results[k] = (sx, sa, cmpd)
+    n_methods = n_pairs = 0
+    disagree = {k: {m for m, (x, a) in v[2].items() if x != a} for k, v in results.items()}
+    for k, (sx, sa, cmpd) in sorted(results.items()):
+        name = LA.paths[k]
+        one = sorted(set(sx) ^ set(sa)) if cmpd and "*" not in cmpd else ([] if cmpd else ["x64" if sx else "arm64"])
+        if not cmpd:
+            r.observe("%s compares values on %s only (%s)" % (k[1], "x64" if sx else "arm64", {
+                m: sorted(w) for m, w in (sx or sa).items()}))
+            continue
+        n_methods += 1
+        for m, (x, a) in sorted(cmpd.items()):
+            n_pairs += 1
+            r.instance("%s:compare-width:%s" % (name, m), sample={"method": k[1], "mode": m, "x64": sorted(x),
+                                                                  "arm64": sorted(a)})
+            if x == a:
+                continue
+            # a disagreement that a compared helper already shows, with equal own instructions, is reported there
+            own_same = WX.own.get(k, {}).get(m) == WA.own.get(k, {}).get(m)
+            if own_same and any(disagree.get(c) for c in (WX.callees.get(k, set()) | WA.callees.get(k, set()))):
+                continue
+            key = "%s:compare-width:%sx64=%s:arm64=%s" % (name, "" if m == "*" else m + ":", fmt(map(str, x)), fmt(map(str, a)))
+            narrow = "x64" if min(x) < min(a) else "arm64"
+            r.violation(key, "%s compares %s bits on x64 and %s bits on arm64%s: on %s only part of the value takes "
+                             "part in the comparison, so two values that differ in the ignored bits compare equal "
+                             "there (a bounds or range check passes on one target and traps on the other)" % (
+                                 k[1], "/".join(map(str, sorted(x))), "/".join(map(str, sorted(a))),
+                                 "" if m == "*" else " under MachineMode::%s" % m, narrow),
+                        "%s:%d" % ((LX if narrow == "x64" else LA).bodies[k][0].file,
+                                   (LX if narrow == "x64" else LA).bodies[k][0].line))
+        if one and "*" not in cmpd:
+            r.observe("%s: modes handled on one target only: %s" % (k[1], one))
+    r.floor("methods comparing values on both targets", n_methods, 18)
+    r.floor("(method, mode) compare-width pairs", n_pairs, 45)
